@@ -521,7 +521,7 @@ def cpu_lane(k, endianness): return (k % 4) if endianness == "little" else 3 - (
 WHAT_ROM_STR = ("SoCCore(integrated_rom_init=<file name>) converts the file with get_mem_data(endianness='little') whatever the CPU is (marked FIXME in soc_core.py); "
                 "with a big-endian CPU (lm32, mor1kx, marocchino) every ROM word is byte-swapped with respect to what the CPU fetches")
 
-def c_soc_mem_init(bus_standard, endianness, rom_by):
+def c_soc_mem_init(bus_standard, endianness, rom_by, rom_mode="rx"):
     """rom_by: 'filename' SoCCore(integrated_rom_init=<path>) | 'add_rom' SoCCore(integrated_rom_init=get_mem_data(..., cpu endianness)) -> add_rom(contents)
                | 'builder' empty ROM, then the real Builder._initialize_rom_software (bios.bin -> get_mem_data -> SoC.init_rom)"""
     from litex.soc.integration.common import get_mem_data
@@ -535,7 +535,7 @@ def c_soc_mem_init(bus_standard, endianness, rom_by):
         ram_words = get_mem_data(ram_file, data_width=32, endianness=endianness)
         rom_init = dict(filename=rom_file, add_rom=rom_words, builder=[])[rom_by]
         soc = SoCCore(P(), 100e6, cpu_type="vfstub" if endianness == "little" else "vfstubbig", bus_standard=bus_standard, csr_data_width=32,
-                      integrated_rom_size=0x40, integrated_rom_init=rom_init, integrated_sram_size=0x100, with_uart=False, with_timer=True, ident="", ident_version=False)
+                      integrated_rom_size=0x40, integrated_rom_init=rom_init, integrated_rom_mode=rom_mode, integrated_sram_size=0x100, with_uart=False, with_timer=True, ident="", ident_version=False)
         elab.restore_stderr()
         soc.add_ram("bootram", origin=0x2000_0000, size=0x80)
         soc.finalize(); elab.restore_stderr()
@@ -555,7 +555,13 @@ def c_soc_mem_init(bus_standard, endianness, rom_by):
                    info="" if list(soc.rom.mem.init) == rom_words else f"init[:2]={[hex(w) for w in list(soc.rom.mem.init)[:2]]} image[:2]={[hex(w) for w in rom_words[:2]]}",
                    **(dict(what=WHAT_ROM_STR, replay="tools/replay_rom_init_endianness.py") if finding else {})))
     out.append(res("ens.bootram.mem.init==get_mem_data(file)", "ensures", OK if list(soc.bootram.mem.init) == ram_words else VIOLATED, 0, "executed (SoC.init_ram)"))
-    if rom_by == "builder":
+    if "w" in rom_mode:
+        # a WRITABLE region publishes its whole extent as usable memory (mem.h / regions.ld / JSON): initialising it must not shrink the memory behind it
+        full = soc.rom.mem.depth * 4 >= soc.bus.regions["rom"].size
+        out.append(res("ens.writable-rom keeps the published extent after init_rom (depth*4 >= region size)", "ensures", OK if full else VIOLATED, 0, "executed (real Builder._initialize_rom_software / SoC.init_rom)",
+                       info="" if full else f"memory depth {soc.rom.mem.depth} words behind a published region of {soc.bus.regions['rom'].size:#x} bytes, mode {rom_mode}"))
+        if not full: return dict(results=out, functions=["litex.soc.integration.soc.SoC.init_ram", "litex.soc.integration.soc.SoC.init_rom"], samples=[dict(config=f"{bus_standard},{endianness},rom by {rom_by},{rom_mode}")])
+    if rom_by == "builder" and "w" not in rom_mode:
         out.append(res("ens.init_rom(auto_size): depth==len(image) and region size >= image", "ensures", OK if soc.rom.mem.depth == len(rom_words) and soc.bus.regions["rom"].size >= 4 * len(rom_words) else VIOLATED, 0, "executed"))
     # ---- E1: the elaborated SoC returns cell j for a read at origin+4j (ROM cells are constants of the extraction = their init value)
     p = Probe(f"SoC({bus_standard},{endianness},rom by {rom_by})", soc, m, 8 if bus_standard != "wishbone" else 6)
@@ -570,6 +576,9 @@ def c_soc_mem_init(bus_standard, endianness, rom_by):
     for j in range(len(rom_words)):
         a = rom_o + 4 * j
         want = K(soc.rom.mem.init[j], 32)
+        if "w" in rom_mode:      # a writable ROM is a RAM with an initial image: the cells are state (power-up value = image, checked above), a read returns the cell
+            out.append(p.prove(f"ens.read[writable rom word {j}@{a:#x} returns cell {j}]", p.held(a, False), lambda k, j=j: z3.And(at(h.v(m.dat_r), k) == at(h.v(rom_cells[j]), 0), *unchanged(k))))
+            continue
         out.append(p.prove(f"ens.read[rom word {j}@{a:#x} returns the cell = Memory.init[{j}]]", p.held(a, False), lambda k, j=j, want=want: z3.And(at(h.v(m.dat_r), k) == want, at(h.v(rom_cells[j]), k) == want, *unchanged(k))))
     for j in (0, 5, len(ram_cells) - 1):
         a = ram_o + 4 * j
@@ -578,7 +587,11 @@ def c_soc_mem_init(bus_standard, endianness, rom_by):
                            lambda k, j=j: z3.And(at(h.v(ram_cells[j]), k + 1) == at(h.v(m.dat_w), 0), *[at(h.v(c), k + 1) == at(h.v(c), 0) for i_, c in enumerate(ram_cells) if i_ != j], *unchanged(k))))
     neg = p.prove("neg", p.held(rom_o, False), lambda k: at(h.v(m.dat_r), k) == K(soc.rom.mem.init[1], 32))
     out.append(res("cover.wrong-rom-word-is-refuted", "cover", OK if neg["status"] == NOINPUT and soc.rom.mem.init[0] != soc.rom.mem.init[1] else VACUOUS, neg["secs"], neg["backend"]))
-    out.append(p.prove(f"ens.write[rom@{rom_o:#x} is read-only: acknowledged, no cell and no CSR changes]", p.held(rom_o, True), lambda k: z3.And(*unchanged(k))))
+    if "w" not in rom_mode:
+        out.append(p.prove(f"ens.write[rom@{rom_o:#x} is read-only: acknowledged, no cell and no CSR changes]", p.held(rom_o, True), lambda k: z3.And(*unchanged(k))))
+    else:
+        jl = soc.bus.regions["rom"].size // 4 - 1; al = rom_o + 4 * jl
+        out.append(p.prove(f"ens.write[writable rom: last published word {jl}@{al:#x} sets cell {jl}]", p.held(al, True), lambda k: z3.And(at(h.v(rom_cells[jl]), k + 1) == at(h.v(m.dat_w), 0), *unchanged(k))))
     # ---- real simulator (bounded: this image): every byte of both files read back through the SoC's bus master at origin+k
     got = {}
     def gen():
@@ -985,6 +998,7 @@ def cases(tier):
           VCase("SoC-mem-init(wishbone,big,rom by builder)", c_soc_mem_init, "wishbone", "big", "builder", timeout=900),
           VCase("SoC-mem-init(axi-lite,little,rom by add_rom)", c_soc_mem_init, "axi-lite", "little", "add_rom", timeout=900),
           VCase("SoC-mem-init(wishbone,big,rom by filename)", c_soc_mem_init, "wishbone", "big", "filename", timeout=900),
+          VCase("SoC-mem-init(wishbone,little,writable rom by builder)", c_soc_mem_init, "wishbone", "little", "builder", "rwx", timeout=900),
           VCase("exports(wishbone,csr32)", c_exports, "wishbone,csr32"),
           VCase("exports(wishbone,csr32,little)", c_exports, "wishbone,csr32,little", ordering="little"),
           VCase("exports(wishbone,csr8)", c_exports, "wishbone,csr8", csr_dw=8),
